@@ -4,18 +4,22 @@ partial result (JSON) which check merges into evidence/<ID>.json."""
 VSIM = "{BIN}/vsim"
 VNATIVE = "{BIN}/vnative"
 VGEN = ["python3-vt", "{VERIF}/tools/vgen.py"]
+FUZZ = ["python3", "{VERIF}/tools/fuzz_engine.py"]
 
 NATIVE_NOTE = "Trusts: rustc; the Linux kernel's mmap/mprotect semantics and /proc/self/maps; symbol interposition by the static linker (calibrated at every worker start: a plain install must be seen to call mmap, mprotect and __clear_cache, else exit 2); the x86-64 mini-decoder (cross-checked against llvm-mc in `vsim selftest`). x86-64 Linux only; other OS layers (mach_vm_*, VirtualAlloc/Protect) are not compiled here."
 
 PLAN = {
     "C01": {
+        "selftest": True,
         "packages": ["vsim", "vnative"],
         "engines": [
             {"name": "n-place", "argv": [VNATIVE, "place", "--property", "C01"]},
             {"name": "s1-amd64", "argv": [VSIM, "amd64", "--property", "C01", "--modes", "fn,bool"]},
+            {"name": "fuzz-encoders", "thorough_only": True, "argv": FUZZ + ["--property", "C01"]},
         ],
     },
     "C02": {
+        "selftest": True,
         "packages": ["vnative", "vsim"],
         "engines": [
             {"name": "n-hist", "argv": [VNATIVE, "hist", "--property", "C02"]},
@@ -54,6 +58,7 @@ PLAN = {
         ],
     },
     "C11": {
+        "selftest": True,
         "packages": ["vnative", "vsim"],
         "engines": [
             {"name": "n-layout", "argv": [VNATIVE, "layout", "--property", "C11"]},
@@ -74,6 +79,7 @@ PLAN = {
         ],
     },
     "C10": {
+        "selftest": True,
         "packages": ["vnative", "vsim"],
         "engines": [
             {"name": "n-boolsig", "argv": [VNATIVE, "sig", "--property", "C10"]},
@@ -85,6 +91,7 @@ PLAN = {
         ],
     },
     "C13": {
+        "selftest": True,
         "packages": ["vnative", "vsim"],
         "engines": [
             {"name": "n-probe", "argv": [VNATIVE, "probe", "--property", "C13"]},
@@ -105,6 +112,7 @@ PLAN = {
         ],
     },
     "C17": {
+        "selftest": True,
         "packages": ["vnative", "vsim"],
         "engines": [
             {"name": "n-hist-flush", "argv": [VNATIVE, "hist", "--property", "C17"]},
@@ -112,15 +120,19 @@ PLAN = {
         ],
     },
     "C15": {
+        "selftest": True,
         "packages": ["vsim"],
         "engines": [
             {"name": "s1-arm64", "argv": [VSIM, "arm64", "--property", "C15", "--modes", "fn,bool"]},
+            {"name": "fuzz-encoders", "thorough_only": True, "argv": FUZZ + ["--property", "C15"]},
         ],
     },
     "C16": {
+        "selftest": True,
         "packages": ["vsim"],
         "engines": [
             {"name": "s1-arm", "argv": [VSIM, "arm", "--property", "C16", "--modes", "fn,bool"]},
+            {"name": "fuzz-encoders", "thorough_only": True, "argv": FUZZ + ["--property", "C16"]},
         ],
     },
 }
